@@ -58,7 +58,12 @@ class SimFS:
         instead of raising, call os._exit(137) (real-kill fidelity check).
     """
 
-    def __init__(self, root, crash_at=None, exit_mode=False):
+    def __init__(self, root, crash_at=None, exit_mode=False, buffered=False):
+        # buffered: file objects behave like io.BufferedWriter (data reaches the
+        # disk at flush / close / when more than 8 KiB are pending); otherwise
+        # every write() is a syscall of its own.  A killed process loses its
+        # user-space buffers.
+        self.buffered = buffered
         self.root = os.path.realpath(root)
         self.crash_at = crash_at
         self.exit_mode = exit_mode
@@ -97,10 +102,6 @@ class SimFS:
             self._die()
         return nbytes
 
-    def after_partial(self, allowed, nbytes):
-        if self.crash_at is not None and (len(self.ops) - 1) == self.crash_at[0]:
-            self._die()
-
 
 class SimFile:
     """Write-through file object (no user-space buffer: every write() is a
@@ -114,6 +115,7 @@ class SimFile:
         self.closed = False
         self.name = path
         self._closefd = closefd
+        self._buf = bytearray()
 
     # context manager
     def __enter__(self):
@@ -141,6 +143,20 @@ class SimFile:
         if isinstance(data, str):
             data = data.encode()
         data = bytes(data)
+        if self.fs.buffered:
+            self._buf += data
+            if len(self._buf) > 8192:
+                self._flush_buffer()
+            return len(data)
+        return self._syscall_write(data)
+
+    def _flush_buffer(self):
+        if self._buf:
+            data = bytes(self._buf)
+            self._buf.clear()
+            self._syscall_write(data)
+
+    def _syscall_write(self, data):
         allowed = self.fs.gate("write", self.path, len(data))
         view = memoryview(data)[:allowed]
         while len(view):
@@ -182,6 +198,8 @@ class SimFile:
         return len(b)
 
     def seek(self, pos, whence=0):
+        if not self.fs.crashed:
+            self._flush_buffer()
         return os.lseek(self.fd, pos, whence)
 
     def tell(self):
@@ -197,17 +215,22 @@ class SimFile:
     def flush(self):
         if self.fs.crashed:
             raise SimCrash()
+        self._flush_buffer()
 
     def close(self):
         if self.closed:
             return
-        self.closed = True
-        self.fs.fds.pop(self.fd, None)
-        if self._closefd:
-            try:
-                _real["os.close"](self.fd)
-            except OSError:
-                pass
+        try:
+            if not self.fs.crashed:
+                self._flush_buffer()
+        finally:
+            self.closed = True
+            self.fs.fds.pop(self.fd, None)
+            if self._closefd:
+                try:
+                    _real["os.close"](self.fd)
+                except OSError:
+                    pass
 
 
 _WRITE_FLAGS = os.O_WRONLY | os.O_RDWR | os.O_CREAT | os.O_TRUNC | os.O_APPEND
